@@ -99,8 +99,6 @@ func verifExercise(data []byte, allowExternal bool) { verifExerciseKnown(data, a
 func verifExerciseKnown(data []byte, allowExternal bool, knownValidate, knownInternalize string) {
 	// known findings, identified by call site (see known_findings.json)
 	verifKnownAt("C20-marshal-ref-without-target", "Ref).MarshalYAML")
-	verifKnownAt("C20-internalize-nil-map-entry", ".derefHeaders")
-	verifKnownAt("C20-internalize-nil-map-entry", ".derefContent")
 	loader := NewLoader()
 	loader.IsExternalRefsAllowed = allowExternal
 	rootLoc := &url.URL{Path: "/r/doc.json"}
